@@ -63,6 +63,8 @@ pub fn gen_filter_indexed(rng: &mut Rng, sources: &[Ipv4Addr], i: u64) -> F {
         2 => F::AnyOf(vec![unspec4, unspec6, IpAddr::V4(Ipv4Addr::BROADCAST)]),
         3 => F::Exact(IpAddr::V6(Ipv4Addr::LOCALHOST.to_ipv6_mapped())),
         4 => F::Wildcard([Some(0), Some(0), Some(0), Some(0)]),
+        // a set without members has no member (Rust API only: the C ABI cannot build one)
+        5 => F::AnyOf(vec![]),
         _ => gen_filter(rng, sources),
     }
 }
